@@ -55,6 +55,13 @@ func ItemsEqual(it, with Item) bool {
 			result = c.Equals(with)
 			return nil
 		})
+	} else if IsLink(it) {
+		_ = OnLink(it, func(l *Link) error {
+			return OnLink(with, func(w *Link) error {
+				result = linksEqual(l, w)
+				return nil
+			})
+		})
 	} else if IsObject(it) {
 		_ = OnObject(it, func(i *Object) error {
 			result = i.Equals(with)
@@ -98,6 +105,18 @@ func ItemsEqual(it, with Item) bool {
 		}
 	}
 	return result
+}
+
+// linksEqual verifies if two Links have the same properties
+func linksEqual(l, w *Link) bool {
+	if l == nil || w == nil {
+		return l == w
+	}
+	return l.ID.Equals(w.ID, true) && strings.EqualFold(string(l.Type), string(w.Type)) &&
+		l.Href.Equals(w.Href, true) && l.Rel.Equals(w.Rel, true) &&
+		l.MediaType == w.MediaType && l.HrefLang == w.HrefLang &&
+		l.Height == w.Height && l.Width == w.Width &&
+		l.Name.Equals(w.Name) && ItemsEqual(l.Preview, w.Preview)
 }
 
 // IsItemCollection returns if the current Item interface holds a Collection
